@@ -471,28 +471,50 @@ def rule_collision(ctx, rule='C01.COLLISION'):
     # spend_utxo: a candidate is accepted without the hash check only when it is the only candidate
     f = ctx.func('bp', 'BlockProcessor.spend_utxo')
     cfg = ctx.cfg(f)
-    cdefs = [s for s in f.own_nodes() if isinstance(s, ast.Assign) and isinstance(s.value, ast.DictComp) and isinstance(s.targets[0], ast.Name)
+    def cand_value(v):
+        if isinstance(v, ast.DictComp):
+            return True
+        return isinstance(v, ast.Call) and isinstance(v.func, ast.Name) and v.func.id == 'dict' and len(v.args) == 1 and not v.keywords
+    cdefs = [s for s in f.own_nodes() if isinstance(s, ast.Assign) and cand_value(s.value) and isinstance(s.targets[0], ast.Name)
              and any(isinstance(c, ast.Call) and isinstance(c.func, ast.Attribute) and c.func.attr == 'iterator' for c in ast.walk(s.value))]
     cand = cdefs[0].targets[0].id if len(cdefs) == 1 else None
     loops = [s for s in f.own_nodes() if isinstance(s, ast.For) and cand and cand in q.names_in(s.iter)]
     ok, why = False, 'candidate loop not found'
     if len(loops) == 1:
+        from .. import paths as P
         lp = loops[0]
-        chk = [s for s in walk_own(lp) if isinstance(s, ast.If) and isinstance(s.test, ast.Compare) and isinstance(s.test.ops[0], ast.NotEq)
-               and f.params[1] in (norm(s.test.left), norm(s.test.comparators[0])) and any(isinstance(x, ast.Continue) for x in walk_own(s))]
-        rets = [r for r in walk_own(lp) if isinstance(r, ast.Return)]
-        if len(chk) == 1 and len(rets) == 1:
-            conds = pr.control_conditions(chk[0], lp)
-            single = len(conds) == 1 and conds[0][1] and q.cmp_matches(ctx, f, conds[0][0], f'len({cand}) > 1')
-            # the compared hash comes from fs_tx_hash(tx_num of this candidate)
-            other = chk[0].test.comparators[0] if norm(chk[0].test.left) == f.params[1] else chk[0].test.left
-            fsd = [s for s in walk_own(lp) if isinstance(s, ast.Assign) and isinstance(s.value, ast.Call) and q.callee_name(ctx, f, s.value) == 'self.db.fs_tx_hash'
-                   and isinstance(s.targets[0], ast.Tuple) and norm(s.targets[0].elts[0]) == norm(other)]
-            # every path of an iteration to the return passes the check when there are several candidates
-            p = pr.path_avoiding(cfg, pr.body_entries(cfg, lp), [cfg.node(rets[0])], {cfg.node(conds[0][2])} | pr.outside_loop(cfg, lp)) if conds else [0]
-            full = len(cdefs) == 1 and not cdefs[0].value.generators[0].ifs
-            ok = single and len(fsd) == 1 and p is None and full
-            why = f'single-candidate exemption ok={single}, hash from fs_tx_hash ok={len(fsd) == 1}, check on every path={p is None}, all rows are candidates={full}'
+        loopvars = {x.id for x in ast.walk(lp.target) if isinstance(x, ast.Name)}
+        full = not (isinstance(cdefs[0].value, ast.DictComp) and (cdefs[0].value.generators[0].ifs or len(cdefs[0].value.generators) != 1
+                                                                  or norm(cdefs[0].value.key) != norm(cdefs[0].value.generators[0].target.elts[0])
+                                                                  if isinstance(cdefs[0].value.generators[0].target, ast.Tuple) else True))
+
+        def fs_hash_of_candidate(x):
+            # fs_tx_hash(<something computed from this row's key>)[0]
+            if not (isinstance(x, ast.Subscript) and const_value(x.slice) == 0 and isinstance(x.value, ast.Call)):
+                return False
+            c = x.value
+            if not norm(c.func).endswith('fs_tx_hash') or not c.args:
+                return False
+            return any(isinstance(y, ast.Name) and y.id.split("'")[0] in loopvars and "'" in y.id for y in ast.walk(c.args[0]))
+        accepts, bad = 0, []
+        for pth in P.paths(f.node.body):
+            if pth.exit != 'return' or not any(nd is lp for _t, _pol, nd in pth.conds):
+                continue
+            accepts += 1
+            cv_ = pth.env.get(cand)
+            multi = P.decided(ctx, f, pth, f'len({norm(cv_)}) > 1') if cv_ is not None else None
+            if multi is False:
+                continue              # the only row under the prefix
+            eq = False
+            for t, pol, _nd in pth.conds:
+                if isinstance(t, ast.Compare) and len(t.ops) == 1 and isinstance(t.ops[0], (ast.Eq, ast.NotEq)):
+                    sides = [t.left, t.comparators[0]]
+                    if any(norm(x) == f.params[1] for x in sides) and any(fs_hash_of_candidate(x) for x in sides):
+                        eq = eq or (pol == isinstance(t.ops[0], ast.Eq))
+            if not eq:
+                bad.append(' & '.join(pth.cond_texts()[1:])[:160])
+        ok = accepts >= 1 and not bad and full
+        why = f'rows accepted on a path without `fs_tx_hash(tx_num of the row)[0] == tx_hash` although several rows share the prefix: {bad}; all rows are candidates={full}'
     ctx.check(ok, rule, ctx.key(f, None, 'full-hash check'),
               'with several candidates under the 4-byte prefix a row is accepted only if its tx_num maps back to the full tx hash',
               'a DB row can be accepted as the spent UTXO without the full-hash check among several candidates: ' + why +
